@@ -53,3 +53,168 @@ Theorem C06_code_time_filter : forall p vt o,
   0 <= vt < 2^64 -> gen_processor_versionTimeGuard p vt o = (time o <=? vt).
 Proof. exact processor_versionTimeGuard_tie. Qed.
 Print Assumptions C06_code_time_filter.
+
+From SV Require Import Resolve.Op Resolve.Apply Resolve.Process Resolve.Order Resolve.Prepare Resolve.Version Resolve.Extend Resolve.VersionAdditional.
+Local Close Scope Z_scope.
+
+(* for every option, supplying additional operations gives the complete outcome of resolving the merged stores (an additional published operation whose canonical reference is stored is dropped, other published ones join the published operations, unpublished ones the unpublished operations) under the same version filter *)
+Theorem C06_additional_is_merge :
+  forall (pub unpub : list aop) (opts : ropts),
+         resolve pub unpub opts =
+         resolve (merged_pub pub (o_additional opts)) (merged_unpub unpub (o_additional opts))
+           (strip opts).
+Proof. exact resolve_additional. Qed.
+Print Assumptions C06_additional_is_merge.
+
+(* the same for the prepared lists *)
+Theorem C06_additional_is_merge_prepare :
+  forall (pub unpub : list aop) (opts : ropts),
+         prepare pub unpub opts =
+         prepare (merged_pub pub (o_additional opts)) (merged_unpub unpub (o_additional opts))
+           (strip opts).
+Proof. exact prepare_additional. Qed.
+Print Assumptions C06_additional_is_merge_prepare.
+
+(* and for resolve_full *)
+Theorem C06_additional_is_merge_full :
+  forall (pub unpub : list aop) (opts : ropts),
+         resolve_full pub unpub opts =
+         resolve_full (merged_pub pub (o_additional opts)) (merged_unpub unpub (o_additional opts))
+           (strip opts).
+Proof. exact resolve_full_additional. Qed.
+Print Assumptions C06_additional_is_merge_full.
+
+(* part of the anchored history supplied as additional operations (references not stored) resolves exactly as if it were in the operation store, including the returned operation lists *)
+Theorem C06_additional_history_as_stored :
+  forall pub unpub adds : list aop,
+         (forall o : aop,
+          In o adds -> cref o <> 0%Z /\ (forall q : aop, In q pub -> cref q <> cref o)) ->
+         resolve pub unpub {| o_vid := 0; o_vtime := None; o_additional := adds |} =
+         resolve (pub ++ adds) unpub no_opts.
+Proof. exact additional_history_as_stored. Qed.
+Print Assumptions C06_additional_history_as_stored.
+
+(* re-supplying operations whose references are stored changes nothing *)
+Theorem C06_additional_known_ignored :
+  forall pub unpub adds : list aop,
+         (forall o : aop, In o adds -> cref o <> 0%Z /\ (exists q : aop, In q pub /\ cref q = cref o)) ->
+         resolve pub unpub {| o_vid := 0; o_vtime := None; o_additional := adds |} =
+         resolve pub unpub no_opts.
+Proof. exact additional_known_ignored. Qed.
+Print Assumptions C06_additional_known_ignored.
+
+(* additional operations without canonical reference are appended to the unpublished ones *)
+Theorem C06_additional_unpublished_as_stored :
+  forall pub unpub adds : list aop,
+         (forall o : aop, In o adds -> cref o = 0%Z) ->
+         resolve pub unpub {| o_vid := 0; o_vtime := None; o_additional := adds |} =
+         resolve pub (unpub ++ adds) no_opts.
+Proof. exact additional_unpublished_as_stored. Qed.
+Print Assumptions C06_additional_unpublished_as_stored.
+
+(* version time with additional operations = plain resolution of the merged history truncated at that time *)
+Theorem C06_version_time_additional :
+  forall (t : Z) (pub unpub adds : list aop),
+         key_inj (merged_pub pub adds) ->
+         key_inj (merged_unpub unpub adds) ->
+         (exists o : aop, In o (merged_pub pub adds ++ merged_unpub unpub adds) /\ (time o <= t)%Z) ->
+         resolve_full pub unpub (at_time_with t adds) =
+         resolve_full (filter_time t (merged_pub pub adds)) (filter_time t (merged_unpub unpub adds))
+           no_opts.
+Proof. exact version_time_additional. Qed.
+Print Assumptions C06_version_time_additional.
+
+(* a version time before every merged operation is an error *)
+Theorem C06_version_time_additional_before_first :
+  forall (t : Z) (pub unpub adds : list aop),
+         (forall o : aop, In o (merged_pub pub adds ++ merged_unpub unpub adds) -> (t < time o)%Z) ->
+         resolve_full pub unpub (at_time_with t adds) = inl ENoOpsForTime.
+Proof. exact version_time_additional_before_first. Qed.
+Print Assumptions C06_version_time_additional_before_first.
+
+(* additional operations anchored after the version time do not change the version *)
+Theorem C06_later_additional_cannot_change_past_time :
+  forall (t : Z) (pub unpub adds : list aop),
+         key_inj (merged_pub pub adds) ->
+         key_inj (merged_unpub unpub adds) ->
+         (forall o : aop, In o adds -> (t < time o)%Z) ->
+         (exists o : aop, In o (pub ++ unpub) /\ (time o <= t)%Z) ->
+         resolve_full pub unpub (at_time_with t adds) = resolve_full pub unpub (at_time t).
+Proof. exact later_additional_cannot_change_past_time. Qed.
+Print Assumptions C06_later_additional_cannot_change_past_time.
+
+(* version id with additional operations (a version time given together with it is ignored) = plain resolution of the prefix of the merged sorted anchored history through the operation carrying that reference; unknown reference = error *)
+Theorem C06_version_id_additional :
+  forall (v : Z) (vt : option Z) (pub unpub adds : list aop),
+         v <> 0%Z ->
+         key_inj (merged_pub pub adds) ->
+         (forall o : aop, In o unpub -> cref o = 0%Z) ->
+         match prefix_through v (sort_ops (merged_pub pub adds)) with
+         | Some p => resolve_full pub unpub (at_id_with v vt adds) = resolve_full p [] no_opts
+         | None => resolve_full pub unpub (at_id_with v vt adds) = inl EBadVersionId
+         end.
+Proof. exact version_id_additional. Qed.
+Print Assumptions C06_version_id_additional.
+
+(* additional operations anchored after everything stored do not change a past version id *)
+Theorem C06_later_additional_cannot_change_past_id :
+  forall (v : Z) (vt : option Z) (pub unpub adds p : list aop),
+         v <> 0%Z ->
+         key_inj (merged_pub pub adds) ->
+         (forall o : aop, In o unpub -> cref o = 0%Z) ->
+         (forall a b : aop, In a pub -> In b adds -> op_le a b) ->
+         prefix_through v (sort_ops pub) = Some p ->
+         resolve_full pub unpub (at_id_with v vt adds) = resolve_full pub unpub (at_id v).
+Proof. exact later_additional_cannot_change_past_id. Qed.
+Print Assumptions C06_later_additional_cannot_change_past_id.
+
+(* non-vacuity: store {create, update}, additional {update, recover, stored update, pending update}, version time 12 *)
+Theorem C06_nonvacuous_time :
+  resolve_full va_store [] (at_time_with 12 (va_pending :: va_adds)) =
+         resolve_full (filter_time 12 (merged_pub va_store (va_pending :: va_adds)))
+           (filter_time 12 (merged_unpub [] (va_pending :: va_adds))) no_opts.
+Proof. exact va_time. Qed.
+Print Assumptions C06_nonvacuous_time.
+
+(* its value *)
+Theorem C06_nonvacuous_time_value :
+  resolve_full va_store [] (at_time_with 12 (va_pending :: va_adds)) =
+         inr
+           (Some
+              (h_create,
+               {|
+                 doc := Some [103%Z];
+                 upd := 22;
+                 rec := 31;
+                 deact := false;
+                 last_t := 12;
+                 last_n := 0;
+                 created := 10;
+                 updated := 12;
+                 vid := 3;
+                 canon := 3;
+                 aorigin := 1
+               |}, [h_rec])).
+Proof. exact va_time_value. Qed.
+Print Assumptions C06_nonvacuous_time_value.
+
+(* version id of the recover supplied as additional operation *)
+Theorem C06_nonvacuous_id :
+  resolve_full va_store [] (at_id_with 3 (Some 10%Z) va_adds) =
+         resolve_full [h_create; h_upd1; h_rec] [] no_opts.
+Proof. exact va_id. Qed.
+Print Assumptions C06_nonvacuous_id.
+
+(* unknown version id *)
+Theorem C06_nonvacuous_id_unknown :
+  resolve_full va_store [] (at_id_with 77 None va_adds) = inl EBadVersionId.
+Proof. exact va_id_unknown. Qed.
+Print Assumptions C06_nonvacuous_id_unknown.
+
+(* additional history as stored *)
+Theorem C06_nonvacuous_as_stored :
+  resolve [h_create] []
+           {| o_vid := 0; o_vtime := None; o_additional := [h_upd2; h_rec; h_upd1] |} =
+         resolve ([h_create] ++ [h_upd2; h_rec; h_upd1]) [] no_opts.
+Proof. exact va_all_as_stored. Qed.
+Print Assumptions C06_nonvacuous_as_stored.
